@@ -62,6 +62,69 @@ pub fn kinds() -> Vec<(&'static str, CovKind, Vec<u8>, Vec<u8>)> {
     ]
 }
 
+/// Two covenants of the same length, a cheap one and one that spins a loop 65535 times, whose bytes collide under the fast
+/// non-cryptographic hash the crate uses for its in-memory tables (FxHash; a difference in one 8-byte word is cancelled by the
+/// next word, hidden in the literal of a PushI).  `prefixed`: the way slices hash themselves (length first), else raw bytes.
+pub fn fx_colliding(prefixed: bool) -> (Vec<u8>, Vec<u8>) {
+    use std::hash::Hasher;
+    use OpCode::*;
+    let cheap = Covenant::from_ops(&[Noop, Noop, Noop, Noop, Noop, Noop, Noop, PushI(U256::ONE)]).to_bytes().to_vec();
+    let mut expensive = Covenant::from_ops(&[Loop(65535, 1), Noop, Noop, PushI(U256::ONE)]).to_bytes().to_vec();
+    let st = |b: &[u8]| {
+        let mut h = rustc_hash::FxHasher::default();
+        if prefixed {
+            h.write_usize(40);
+        }
+        h.write(&b[..8]);
+        h.finish()
+    };
+    let (hc, he) = (st(&cheap), st(&expensive));
+    let wc = u64::from_ne_bytes(cheap[8..16].try_into().unwrap());
+    let we = wc ^ hc.rotate_left(5) ^ he.rotate_left(5);
+    expensive[8..16].copy_from_slice(&we.to_ne_bytes());
+    (cheap, expensive)
+}
+
+/// A coin locked by the expensive twin is spent paying only what the cheap twin costs, after a transaction carrying the cheap
+/// twin has been seen; then paying in full.
+fn collision_scenario(d: &mut Driver, prefixed: bool, salt: u8) {
+    let (cheap, expensive) = fx_colliding(prefixed);
+    if Covenant::from_bytes(&expensive).is_err() {
+        return;
+    }
+    let ea = d.wal.address(CovKind::Random(expensive.clone()));
+    let ta = d.wal.address(CovKind::True);
+    let f = d.faucet(vec![mk_coin(ea, 30_000_000, Denom::Mel, &[]), mk_coin(ea, 31_000_000, Denom::Mel, &[])], 0, salt);
+    if !d.apply(&[f.clone()], 0, json!({"why": "coins locked by the expensive twin"})) {
+        return;
+    }
+    let h = d.view().height;
+    let mut carrier = d.faucet(vec![mk_coin(ta, 1, Denom::Mel, &[])], 0, salt + 1);
+    carrier.covenants = vec![cheap.clone().into()];
+    for _ in 0..3 {
+        carrier.fee = CoinValue(crate::wallet::min_fee(&carrier, d.fee_mult()));
+    }
+    d.apply(&[carrier], 0, json!({"why": "a transaction that merely carries the cheap twin"}));
+    for (j, full) in [(0u8, false), (1u8, true)] {
+        let c = (CoinID::new(f.hash_nosigs(), j), CoinDataHeight { coin_data: f.outputs[j as usize].clone(), height: h });
+        let mut tx = Transaction { kind: TxKind::Normal, inputs: vec![c.0], outputs: vec![], fee: CoinValue(0), covenants: vec![expensive.clone().into()],
+                                   data: vec![].into(), sigs: vec![] };
+        let mut probe = tx.clone();
+        if !full {
+            probe.covenants = vec![cheap.clone().into()];
+        }
+        let mut fee = 0u128;
+        for _ in 0..4 {
+            probe.outputs = vec![mk_coin(ta, c.1.coin_data.value.0 - fee, Denom::Mel, &[])];
+            probe.fee = CoinValue(fee);
+            fee = crate::wallet::min_fee(&probe, d.fee_mult());
+        }
+        tx.outputs = vec![mk_coin(ta, c.1.coin_data.value.0 - fee, Denom::Mel, &[])];
+        tx.fee = CoinValue(fee);
+        d.apply(&[tx], 0, json!({"why": format!("spend of a coin locked by the expensive twin paying {}", if full { "its own minimum fee" } else { "the cheap twin's minimum fee" })}));
+    }
+}
+
 pub fn gallery(out: &mut crate::Out, tag: &str, seed: u64, net: NetID, fee_mult: u128) {
     let mut d = Driver::new(out, tag, seed, net, fee_mult, Denom::Mel, 1u128 << 60, 1 << 30, BTreeMap::new());
     d.wal.simple = true;
@@ -124,4 +187,7 @@ pub fn gallery(out: &mut crate::Out, tag: &str, seed: u64, net: NetID, fee_mult:
         d.cur = base;
         d.seal_next(Some(round % 2 == 0));
     }
+    collision_scenario(&mut d, false, 150);
+    collision_scenario(&mut d, true, 160);
+    d.seal_next(Some(true));
 }
